@@ -71,6 +71,7 @@ def strategy(tier):
         "chunked": st.sampled_from([None, None, "plain", "trailers"]),
         # Expect: 100-continue at a drawn position among the headers; the interim response may fail to be sent (client gone)
         "expect": st.one_of(st.none(), st.none(), st.tuples(st.integers(0, 6), st.sampled_from(["ok", "send-fails", "send-fails"])).map(list)),
+        "send_errno": st.sampled_from([32, 104, 11, 4, 110]),
         "prefix_sn": st.integers(0, 3),
         "script_name": st.sampled_from([None, None, None, ["env", "/a"], ["hdr", "/a"], ["env", "/docs"], ["hdr", "/%41"], ["env", "/"],
                                         ["hdr", "/caf\xe9"]]),
@@ -212,7 +213,7 @@ def run_case(case):
     cfg = wenv.make_cfg(keepalive=2, worker_connections=10, threads=2, **({"forwarded_allow_ips": "192.0.2.5"} if lan else {}))
     env = wenv.Env(case["kind"], cfg, app)
     env.listener = wenv.FakeListener({"unix": "/run/verif/gunicorn.sock", "tcp6": ("::1", 8000, 0, 0)}.get(case.get("listener"), ("127.0.0.1", 8000)))
-    sock = wenv.FakeSocket([raw], send_fault=(0, 32) if ex and ex[1] == "send-fails" else None)
+    sock = wenv.FakeSocket([raw], send_fault=(0, case.get("send_errno", 32)) if ex and ex[1] == "send-fails" else None)
     if lan:
         sock.peer, sock.local = ("192.0.2.5", 50000), ("192.0.2.10", 8000)
     try:
